@@ -155,5 +155,15 @@ def skip (b : Btdmp) (ticks : Nat) : R (Btdmp × List Frame) :=
   if !skipDefined b then .error .oob
   else if skipOk b ticks then .ok (skipCore b ticks) else .error .assert
 
+/-- The flags are exact and the queue is bounded: `transmit_empty ⇔ queue empty`,
+`transmit_full ⇔ 16 words queued`, never more than 16 words. -/
+def Inv (b : Btdmp) : Prop :=
+  b.empty = b.queue.isEmpty ∧ b.full = decide (b.queue.length = 16) ∧ b.queue.length ≤ 16
+instance : DecidablePred Inv := fun _ => inferInstanceAs (Decidable (_ ∧ _ ∧ _))
+
+/-- The frame clock is well formed: a non-zero period and a phase inside it. -/
+def Clk (b : Btdmp) : Prop := 1 ≤ b.period ∧ b.timer < b.period
+instance : DecidablePred Clk := fun _ => inferInstanceAs (Decidable (_ ∧ _))
+
 end Btdmp
 end Teakra
